@@ -20,6 +20,28 @@ Theorem C01_checker_sound : forall w, wf_world_b w = true <-> WFw w.
 Proof. exact wf_world_b_WFw. Qed.
 Print Assumptions C01_checker_sound.
 
+(* WF is exactly the DESIGN.md 3.2 formulation (plus: 0 denotes the root and is not a node) *)
+Theorem C01_wf_spelled : forall t, WF t ->
+  NoDup (ids (forest_of t))
+  /\ NoDup (reg t) /\ Permutation (reg t) (ids (forest_of t))
+  /\ NoDup (map fst (idx t))
+  /\ Forall (fun e => snd e <> [] /\ NoDup (snd e)) (idx t)
+  /\ (forall n d, In n (idx_get d (idx t)) <-> In (n, d) (keys (forest_of t)))
+  /\ sib_unique (forest_of t).
+Proof. exact WF_spelled. Qed.
+Print Assumptions C01_wf_spelled.
+
+Theorem C01_wf_of_spelled : forall t,
+  NoDup (ids (forest_of t)) -> ~ In 0 (ids (forest_of t)) ->
+  Permutation (reg t) (ids (forest_of t)) ->
+  NoDup (map fst (idx t)) ->
+  Forall (fun e => snd e <> [] /\ NoDup (snd e)) (idx t) ->
+  (forall n d, In n (idx_get d (idx t)) <-> In (n, d) (keys (forest_of t))) ->
+  sib_unique (forest_of t) ->
+  WF t.
+Proof. exact WF_of_spelled. Qed.
+Print Assumptions C01_wf_of_spelled.
+
 Theorem C01_empty_world : WFw empty_world.
 Proof. exact WFw_empty. Qed.
 Print Assumptions C01_empty_world.
